@@ -47,6 +47,8 @@ class SubWorld(World):
         self.subscribe_calls = []
         self.behaviour = None
         self.teardown_calls = []
+        self.in_item = 0
+        self.sub_in_item = []
 
     def hasattr(self, it, o, name):
         if o.kind == "observer":
@@ -70,9 +72,14 @@ class SubWorld(World):
                 return SV(z3.Bool("schedule_required"), "bool")
             if method == "schedule":
                 # C30 contract: an action scheduled on an idle trampoline runs at once (inside the trampoline)
-                return it.call(args[0], [o, args[1] if len(args) > 1 else None], {})
+                self.in_item += 1
+                try:
+                    return it.call(args[0], [o, args[1] if len(args) > 1 else None], {})
+                finally:
+                    self.in_item -= 1
         if o.kind == "callback" and o.name == "subscribe_fn":
             self.subscribe_calls.append((list(args), dict(kwargs)))
+            self.sub_in_item.append(self.in_item > 0)
             ado = args[0]
             b = self.behaviour
             if b == "returns-disposable":
@@ -147,7 +154,7 @@ class SubscribeHarness:
         self_ = Obj(obs_cls)
         self_.fields["_subscribe"] = Opaque("callback", "subscribe_fn")
         self_.fields["lock"] = Opaque("lock", "obs.lock")
-        sched = Opaque("scheduler", "user_scheduler")
+        sched = Opaque("scheduler", "user_scheduler") if ctx.choose(2, "scheduler_given") == 0 else None
         cb = {n: Opaque("callback", "user_" + n) for n in ("on_next", "on_error", "on_completed")}
         uid = f"{FILE}::Observable.subscribe/{shape}/{behaviour}"
         if shape == "three-callbacks":
@@ -172,6 +179,12 @@ class SubscribeHarness:
         self.record(ctx, uid + "/subscriber-is-wrapped", ok1, detail=f"calls of the subscribe function: {sc!r}"[:300])
         if not ok1:
             return
+        # O7 (C14): whenever the current-thread trampoline is idle the subscribe function runs INSIDE a trampoline item -
+        # whatever scheduler was given - so that an action a source schedules on the current-thread scheduler is queued
+        # (C30) and runs only after the subscription has been assigned
+        self.record(ctx, uid + "/runs-inside-a-trampoline-item-when-the-trampoline-is-idle",
+                    z3.Implies(z3.Bool("schedule_required"), z3.BoolVal(bool(w.sub_in_item and w.sub_in_item[0]))),
+                    detail="schedule_required() was true but _subscribe_core ran outside current_thread_scheduler.schedule(...)")
         ado = sc[0][0][0]
         # O2 the user's callables sit in the wrapper (and nowhere else)
         got = (ado.fields.get("_on_next"), ado.fields.get("_on_error"), ado.fields.get("_on_completed"))
